@@ -181,8 +181,8 @@ def scan_kernel(shape: str, n0: int, n1: int, n2: int, n3: int, n4: int, n5: int
 NREC = 7
 
 
-def run_oracle(shape, n0, n1, n2, n3, n4, n5, b1, b2, b3, b4, b5, b6):
-    blanks = [False, b1, b2, b3, b4, b5, b6]
+def run_oracle(shape, n0, n1, n2, n3, n4, n5, b1, b2, b3, b4, b5, b6, b0=False):
+    blanks = [b0, b1, b2, b3, b4, b5, b6]
     want = [i for i in range(NREC) if not blanks[i] and denotes(shape, n0, n1, n2, n3, n4, n5, i)]
     return (want, len(want), want)
 
@@ -191,22 +191,23 @@ def run_oracle(shape, n0, n1, n2, n3, n4, n5, b1, b2, b3, b4, b5, b6):
     "C02",
     "O2-run",
     pre=["shape_pre(shape, n0, n1, n2, n3, n4, n5, {HI})"],
-    post="_ == run_oracle(shape, n0, n1, n2, n3, n4, n5, b1, b2, b3, b4, b5, b6)",
-    bound="7 stub records (record 0 = header, never blank), records 1..6 blank or not by symbolic flags; scan numbers "
+    post="_ == run_oracle(shape, n0, n1, n2, n3, n4, n5, b1, b2, b3, b4, b5, b6, b0)",
+    bound="7 stub records, records 0..6 blank or not by symbolic flags (a blank first record included; some flags fixed per shard); scan numbers "
     "0..HI symbolic through the real productions; csvpath [yes() push(line_number())]; observed: returned lines (by their "
     "line-number cell), scan_count, line numbers pushed by the match part",
-    outside="files with more than 7 records; a blank first record",
+    outside="files with more than 7 records",
     encodes=ENC + ["csvpath/csvpath.py:CsvPath.next/_next_line/_consider_line/track_line", "csvpath/util/line_monitor.py:LineMonitor.next_line/is_last_line_and_blank"],
     tiers={
         # quick: 3 symbolic blank flags (interior b1, b3 and trailing b6), the others fixed False
-        "quick": {"timeout": 900, "K": {"HI": 8}, "shards": product(shape=["*", "N*", "R"], b2=[False], b4=[False], b5=[False]) + product(shape=["R+N"], b1=[False, True], b2=[False], b4=[False], b5=[False])},
+        "quick": {"timeout": 900, "K": {"HI": 8}, "shards": product(shape=["*", "N*", "R"], b0=[False], b2=[False], b4=[False], b5=[False]) + product(shape=["R+N"], b0=[False], b1=[False, True], b2=[False], b4=[False], b5=[False])
+                  + product(shape=["N*", "R"], b0=[True], b1=[False], b2=[False], b4=[False], b5=[False])},
         "thorough": {"timeout": 3000, "K": {"HI": 9},
-                     "shards": product(shape=["*", "N*", "N", "V", "N+N"]) + product(shape=["R", "R+N", "N+R"], b1=[False, True], b2=[False, True], b3=[False, True])},
+                     "shards": product(shape=["*", "N*", "N", "V", "N+N"], b0=[False, True]) + product(shape=["R", "R+N", "N+R"], b0=[False], b1=[False, True], b2=[False, True], b3=[False, True])},
     },
 )
 def scan_run(shape: str, n0: int, n1: int, n2: int, n3: int, n4: int, n5: int,
-             b1: bool, b2: bool, b3: bool, b4: bool, b5: bool, b6: bool) -> Tuple[List[int], int, List[int]]:
-    blanks = [False, b1, b2, b3, b4, b5, b6]
+             b1: bool, b2: bool, b3: bool, b4: bool, b5: bool, b6: bool, b0: bool = False) -> Tuple[List[int], int, List[int]]:
+    blanks = [b0, b1, b2, b3, b4, b5, b6]
     recs = [[] if blanks[i] else [str(i)] for i in range(NREC)]
     p, pr = fresh('$SYM[*][ yes() push("s", line_number()) ]', recs)
     p.scanner = load_scanner(p, shape, [n0, n1, n2, n3, n4, n5])
